@@ -785,6 +785,8 @@ FORMATS = {
              "chr1\t20\t.\tAC\tA,G\t.\t.\tDP=7;AF=0.25,1e-2;AC=2,3;QD=-2.5e-1",
              "chr2\t5\trs3\tG\tC\t1.5\tq10\tDP=1;AF=1.5e-1;AC=10;DB;QD=-3"]),
     "vcf-noheader": (".vcf", None, "", ["chr1\t10\trs1\tA\tT\t50\tPASS\tDP=10", "chr1\t20\t.\tAC\tA,G\t.\t.\tDP=7;DB"]),
+    "vcf-info-string": (".vcf", "bionumpy.io.vcf_buffers:VCFWithInfoAsStringBuffer", _VCF_HEADER + _VCF_COLS + "\n",
+                        ["chr1\t10\trs1\tA\tT\t50\tPASS\tDP=10;AF=0.5", "chr1\t20\t.\tAC\tA,G\t.\t.\tDP=7;DB", "chr2\t1\tx\tG\tC\t1.5\tq10\t."]),
     "vcf-gt": (".vcf", None, _VCF_HEADER + _VCF_COLS + "\tFORMAT\tS1\tS2\n", _GT_LINES),
     "vcf-gt-matrix": (".vcf", "bionumpy.io.vcf_buffers:VCFMatrixBuffer", _VCF_HEADER + _VCF_COLS + "\tFORMAT\tS1\tS2\n",
                       _GT_LINES + ["chr2\t9\t.\tT\tG\t.\t.\tDP=2;AF=0.5\tGT\t./.\t0/1"]),
@@ -1160,7 +1162,7 @@ def _eval_chunk(col, env, scenario, case, sig):
     elif kind == "write-eager":
         # the fully parsed (eager) table of the chunk is the argument of the writer
         T = B.get_data_object() if env.lazy else B
-        _frame(col, "chunk:%s:write-eager-table" % fmt, "", case, env.write, (T,), [T], tolerate_exception=True)
+        _frame(col, "chunk:%s:write-eager-table" % env.fmt, "", case, env.write, (T,), [T], tolerate_exception=True)
         _check_unchanged(col, env, B, p0, case, sig, "writing-the-parsed-table")
     elif kind == "table-fn":
         fn = _table_functions_for_chunk(env)[scenario[1]]
@@ -1178,7 +1180,7 @@ def _eval_chunk(col, env, scenario, case, sig):
         raise KeyError(kind)
 
 
-LIGHT_IN_QUICK = ("vcf-gt-phased", "vcf-gt-haplotype", "vcf-gt-strings", "vcf-noheader", "gff", "bed12-trailing-comma")
+LIGHT_IN_QUICK = ("vcf-info-string", "vcf-gt-phased", "vcf-gt-haplotype", "vcf-gt-strings", "vcf-noheader", "gff", "bed12-trailing-comma")
 
 
 def chunk_files(fmt, tier):
@@ -1265,7 +1267,7 @@ def run_chunks(col, tier, tmp):
 
 SECTION_ORDER = ("text", "seq", "interval", "genomic", "table")
 # share of the wall budget after which a section is cut short (the chunk section gets what is left)
-QUICK_DEADLINES = {"text": 6, "seq": 12, "interval": 18, "genomic": 22, "table": 26}
+QUICK_DEADLINES = {"text": 10, "seq": 20, "interval": 30, "genomic": 36, "table": 42}
 THOROUGH_DEADLINES = {"text": 90, "seq": 150, "interval": 230, "genomic": 260, "table": 290}
 
 
